@@ -169,7 +169,7 @@ package flyt
 //@   ensures r == n.batchConcurrency
 //@ func (*BaseNode).GetBatchErrorHandling(n) (r)
 //@   requires n != nil
-//@   ensures r == (n.batchErrorHandling == "" ? "continue" : n.batchErrorHandling)
+//@   ensures [C09,C19] r == (n.batchErrorHandling == "" ? "continue" : n.batchErrorHandling)
 //@ func (*BaseNode).Prep(n, ctx, shared) (v, err)
 //@   ensures v == nil && err == nil && callbacks == old(callbacks)
 //@ func (*BaseNode).Exec(n, ctx, p) (v, err)
